@@ -662,6 +662,8 @@ def check(run, replay):
     if NOTES:
         run.notes.extend(sorted(set(NOTES))[:5])
         run.cov["multivalue_order_notes"] = len(NOTES)
+        print("NOTE property=C11 multi-value tokens were not emitted in sorted order in %d batch cases "
+              "(the property does not fix the order; order-dependent interaction names were not compared)" % len(NOTES))
     run.oblige("correspondence:constructors and compute_batch_ranking against the transcription (Coq checkers)",
                not failing, "%d of %d cases rejected" % (len(failing), len(cases)))
 
